@@ -16,31 +16,31 @@ const TagHeader = "X-Verif-Tag"
 
 // Record is one request as the backend saw it.
 type Record struct {
-	Seq        int64
-	Tag        string
-	Method     string
-	RequestURI string
-	Host       string
-	Proto      string
-	Header     http.Header
-	BodyLen    int64
-	BodySHA    string
-	Body       []byte // kept only when small
-	Trailer    http.Header
-	RemoteAddr string
-	TE         []string
+	Seq           int64
+	Tag           string
+	Method        string
+	RequestURI    string
+	Host          string
+	Proto         string
+	Header        http.Header
+	BodyLen       int64
+	BodySHA       string
+	Body          []byte // kept only when small
+	Trailer       http.Header
+	RemoteAddr    string
+	TE            []string
 	ContentLength int64
 }
 
 // Plan tells the backend how to answer one request.
 type Plan struct {
-	Status   int
-	Header   http.Header
-	Chunks   [][]byte      // body pieces, flushed after each
-	Pause    time.Duration // between pieces
-	Trailer  http.Header   // announced trailers
-	Gate     chan struct{} // if non-nil the handler waits for it before answering
-	NoBody   bool
+	Status  int
+	Header  http.Header
+	Chunks  [][]byte      // body pieces, flushed after each
+	Pause   time.Duration // between pieces
+	Trailer http.Header   // announced trailers
+	Gate    chan struct{} // if non-nil the handler waits for it before answering
+	NoBody  bool
 }
 
 type Backend struct {
